@@ -11,6 +11,7 @@
 //     L <ops>        lane script on a serial queue q (with helper objects):
 //                    r R retain/release  s suspend  u resume  k add a child queue targeting q  K release the newest child
 //                    p async one item to q (runs when q can run)  P async one item to the newest child
+//                    S async an item that suspends q from inside its own drain (undone by a later u)
 //                    x set context+finalizer  y queue_set_specific(key, value, destructor)  z final settle
 //                    m create timer source on q (inactive)  M arm (set_timer far future + activate)  X cancel  Z release source
 //                    v create an initially inactive queue qi (reported in place of q until 'V' activates + releases it)
@@ -44,6 +45,16 @@ static void item_fn(void *ctx) { (void)ctx; atomic_fetch_add(&items_run, 1); }
 static void work_fn(void *ctx) { (void)ctx; usleep(200); }
 static void specific_dtor(void *v) { (void)v; atomic_fetch_add(&specific_dtor_runs, 1); }
 static void nop(void *c) { (void)c; }
+static void suspend_self_fn(void *q) { atomic_fetch_add(&items_run, 1); dispatch_suspend((dispatch_queue_t)q); }
+
+// The memory of the group under test is never handed back to malloc: the harness can then tell exactly whether the library
+// released it (freed_flag) without reading freed memory, and in stress mode the tracked address range is never reused by
+// another allocation.  Not under ASan, which wants to see the free itself.
+static void *volatile quarantined; static _Atomic int freed_flag;
+#ifndef C17_ASAN
+extern void __libc_free(void *);
+void free(void *p) { if (p && p == quarantined) { atomic_store(&freed_flag, 1); return; } __libc_free(p); }
+#endif
 
 // wait until the refcount words of the given objects are stable (drains on worker threads finish asynchronously)
 static void settle2(volatile int *a, volatile int *b) {
@@ -54,10 +65,10 @@ static void settle2(volatile int *a, volatile int *b) {
 		if (ca == la && cb == lb) stable++; else { stable = 0; la = ca; lb = cb; }
 	}
 }
-static void wait_for(_Atomic int *v, int want) { for (int k = 0; k < 20000 && atomic_load(v) < want; k++) usleep(100); }
+static void wait_for(_Atomic int *v, int want) { for (int k = 0; k < 7000 && atomic_load(v) < want; k++) usleep(100); }   // 0.7 s
 
 static void run_group_script(const char *ops) {
-	dispatch_group_t g = dispatch_group_create();
+	dispatch_group_t g = dispatch_group_create(); quarantined = g; atomic_store(&freed_flag, 0);
 	atomic_store(&fin_runs, 0); atomic_store(&fin_ctx_id, 0); atomic_store(&fin_queue_id, -1); atomic_store(&delivered, 0);
 	long x = 1, in = 0, enters = 0, pend = 0, asyncs = 0; int hasfin = 0, ctxid = 0;   // harness-side bookkeeping of what it holds
 	settle2(&nq->do_ref_cnt, NULL); int nqbase = nq->do_ref_cnt;   // groups leaked by earlier scripts with pending notifications keep theirs
@@ -86,9 +97,11 @@ static void run_group_script(const char *ops) {
 			dispatch_sync_f(tq6, NULL, nop); usleep(600); asyncs = 0; if (enters == 0) pend = 0;
 		}
 		int alive = (x > 0) || (in > 0) || (enters > 0) || (pend > 0);
-		settle2(alive ? &g->do_ref_cnt : NULL, &nq->do_ref_cnt);
-		if (alive && g->do_vtable != NULL) printf(" %d %d %d %d", g->do_xref_cnt, g->do_ref_cnt, nq->do_ref_cnt - nqbase, atomic_load(&delivered));
+		dispatch_sync_f(nq, NULL, nop);    // notification blocks submitted so far have run; then wait for the drainer's last release
+		settle2((alive && !atomic_load(&freed_flag)) ? &g->do_ref_cnt : NULL, &nq->do_ref_cnt);
+		if (alive && !atomic_load(&freed_flag) && g->do_vtable != NULL) printf(" %d %d %d %d", g->do_xref_cnt, g->do_ref_cnt, nq->do_ref_cnt - nqbase, atomic_load(&delivered));
 		else printf(" -77 -77 %d %d", nq->do_ref_cnt - nqbase, atomic_load(&delivered));
+		fflush(stdout);
 	}
 	if (hasfin && ctxid) wait_for(&fin_runs, 1);
 	usleep(2000);
@@ -113,6 +126,7 @@ static void run_lane_script(const char *ops) {
 		case 'K': dispatch_release(kids[--nk]); break;
 		case 'p': dispatch_async_f(q, NULL, item_fn); break;
 		case 'P': dispatch_async_f(kids[nk - 1], NULL, item_fn); break;
+		case 'S': { int before = atomic_load(&items_run); dispatch_async_f(q, q, suspend_self_fn); wait_for(&items_run, before + 1); } break;  // the drain is interrupted by a suspension: _dispatch_queue_invoke_finish
 		case 'x': hasfin = 1; dispatch_set_context(q, ctxbuf + 3); dispatch_set_finalizer_f(q, finalizer); break;
 		case 'y': dispatch_queue_set_specific(q, &skey, (void *)1, specific_dtor); break;
 		case 'm': src = dispatch_source_create(DISPATCH_SOURCE_TYPE_TIMER, 0, 0, q); dispatch_source_set_event_handler_f(src, nop); shown._ds = src; break;
@@ -129,6 +143,7 @@ static void run_lane_script(const char *ops) {
 		// two pairs: the queue q, and the object in focus (source / inactive queue) or q again
 		if (alive) printf(" %d %d", q->do_xref_cnt, q->do_ref_cnt); else printf(" -77 -77");
 		if (shown._dq != q) printf(" %d %d", shown._do->do_xref_cnt, shown._do->do_ref_cnt); else printf(" -78 -78");
+		fflush(stdout);
 	}
 	if (hasfin && x <= 0) wait_for(&fin_runs, 1);
 	usleep(3000);
@@ -138,15 +153,6 @@ static void run_lane_script(const char *ops) {
 }
 
 // ------------------------------------------------------------------------------------------------ stress
-// the group's memory is never handed back to malloc while its address range is tracked by the recorder (otherwise
-// events of whatever reuses the chunk would be attributed to the group); not under ASan, which wants to see the free
-#ifndef C17_ASAN
-extern void __libc_free(void *);
-static void *volatile quarantined;
-void free(void *p) { if (p && p == quarantined) return; __libc_free(p); }
-#else
-static void *volatile quarantined;
-#endif
 #define MAXT 6
 typedef struct { int idx, nops, round; uint64_t rng; } targ_t;
 static dispatch_group_t sg; static _Atomic long t_x, t_i, t_e; static _Atomic int registered; static pthread_barrier_t bar;
@@ -203,7 +209,7 @@ static int stress(uint64_t seed, int rounds, int permille) {
 	for (int i = 0; i < rounds; i++) {
 		rnd(&r);
 		int n = 2 + (int)((r >> 33) % (MAXT - 1));
-		sg = dispatch_group_create(); quarantined = sg;
+		sg = dispatch_group_create(); quarantined = sg; atomic_store(&freed_flag, 0);
 		atomic_store(&fin_runs, 0); atomic_store(&fin_ctx_id, 0); atomic_store(&delivered, 0); atomic_store(&registered, 0);
 		dispatch_set_context(sg, ctxbuf + 4); dispatch_set_finalizer_f(sg, finalizer);
 		atomic_store(&t_x, 1); atomic_store(&t_i, 0); atomic_store(&t_e, 0);
